@@ -420,6 +420,9 @@ def judge_crash(ctx, outs, what, mode):
             stats["torn"] += 1 if oc["variant"].startswith("torn") else 0
             stats["level2"] += 1 if oc["level"] > 1 else 0
             stats["by_op"][oc["op"]] = stats["by_op"].get(oc["op"], 0) + 1
+            if oc["exit"] == 124:
+                ctx.undecided.append("recovery of image %d of %s did not finish within 600 s" % (oc["image"], oc["script"]))
+                continue
             if oc["exit"] != 0 and mode != "c04":
                 stats["open_failed"] += 1
                 name = "%s-%s-img%d-l%d" % (what, oc["script"], oc["image"], oc["level"])
